@@ -443,6 +443,15 @@ def run(prop: str, tier: str, only=None) -> Result:
     big = [("big", s) for s in gen.big_specs(seed() + 10, 9 if quick else 60, lo=18, hi=36)]
     total = parallel(_chunk, items + rnd + hst + big, prop, prop=prop)
     total.exhaustive = False
+    # typed trees: there the sibling / child / index queries are the kind-aware overrides, whose oracle is C15's -- "for all
+    # trees" includes them, so that oracle runs here too (smaller bound) and its findings count for C10
+    from . import c15
+
+    typed_items = [("typed", s) for s in gen.typed_specs(3)] + [("flat", s) for s in c15._flat_specs(4, ("k1", "k2"))]
+    rt = parallel(c15._chunk, typed_items, prop, prop=prop)
+    total.merge(rt)
+    total.bounds["the same queries on typed trees (kind-aware overrides: sibling navigation, get_index, is_first/last_sibling, children by kind)"] = (
+        "typed forests with <= 3 nodes x {a,b} x kinds {k1,k2} and one parent with 1..4 children of every kind pattern, judged by the oracle of native/props/c15.py")
     b = (
         f"all ordered forests with <= {n_plain} nodes x labelings over {{a,b,c}} (siblings differ, clones under different parents)"
         + f"; equal-data pairs under distinct ids (siblings incl.) in all forests with <= {n_eq} nodes; "
@@ -458,6 +467,10 @@ def run(prop: str, tier: str, only=None) -> Result:
 
 
 def replay(witness: dict, prop: str) -> list[tuple[str, str]]:
+    if "kind_of_input" in witness:  # a finding of the typed-tree part: C15's oracle
+        from . import c15
+
+        return c15.replay(witness, prop)
     spec = spec_from_json(witness["spec"])
     tree, nodes = gen.build(spec)
     vs = check_tree(prop, tree, nodes, {"kind": witness.get("kind"), "spec": witness["spec"]}, foreign=_build_foreign())
